@@ -416,6 +416,7 @@ type c15World struct {
 	curVals    map[string]int64 // latest cursor per key, decoded from the cursors log
 	nCurParts  int32
 	reloads    int
+	sampled    int
 	hupBarrier int
 }
 
@@ -561,7 +562,7 @@ func (w *c15World) setPolicy(pol *c15Policy) (applied bool, err error) {
 			w.pol = old
 			return false, fmt.Errorf("SIGHUP not dispatched to the process within %v: %w", c15Wait, errVfTimeout)
 		}
-		if vfWait(c15Wait, func() bool { return w.enforce(c15Marker, "gen", pol.marker()) }) {
+		if vfWait(c15Wait/2, func() bool { return w.enforce(c15Marker, "gen", pol.marker()) }) {
 			return true, nil
 		}
 		// progress proof before declaring the reload stuck
